@@ -31,7 +31,7 @@ BOUND = {
 }
 TIME_CAP = {"quick": 240, "thorough": 3000}
 
-KINDS = ["f8", "i8", "u1", "b1", "str", "U", "D", "us", "td", "obj"]
+KINDS = ["f8", "i8", "u1", "b1", "str", "U", "D", "us", "ns", "td", "obj"]
 PAIRS = [("f8", "str"), ("str", "D"), ("D", "f8"), ("i8", "U"), ("b1", "us"), ("obj", "f8"), ("U", "str"), ("us", "i8"), ("f8", "f8"), ("str", "str")]
 
 
@@ -64,7 +64,7 @@ def payload_cols(n):
 def decode_value(kind, t):
     if kind == "f8":
         return float(t)
-    if kind in ("D", "s", "ms", "us"):
+    if kind in ("D", "s", "ms", "us", "ns"):
         return np.datetime64(t)
     return t
 
@@ -160,7 +160,7 @@ def expected_ids(op, tin, names, n):
         for i, c in enumerate(tin[op["col"]]):
             if c is None:
                 m = False
-            elif kind in ("D", "s", "ms", "us"):
+            elif kind in ("D", "s", "ms", "us", "ns"):
                 m = np.datetime64(c) == want
             else:
                 m = (c == want)
@@ -171,7 +171,7 @@ def expected_ids(op, tin, names, n):
         want = op["_value"]
         hit = []
         for i, c in enumerate(tin[op["col"]]):
-            m = c is not None and (np.datetime64(c) == want if kind in ("D", "s", "ms", "us") else c == want)
+            m = c is not None and (np.datetime64(c) == want if kind in ("D", "s", "ms", "us", "ns") else c == want)
             hit.append(bool(m) and tin[op["col2"]][i] == op["value2"])
         return [i for i in range(n) if hit[i] == (o == "filter_eq2")]
     if o == "slice":
